@@ -78,6 +78,11 @@ def plan(ck):
     by = {}
     for pos in ap.POSITIONS:
         by[pos] = few if pos in ap.GLOBAL or pos in ap.PATHLIKE else words
+    # (one project per word: a short list)
+    # (no quote characters: bfg9000 parses the real gcc's `-v` output, which
+    # is not sh-quoted, and refuses such a command at configure time)
+    by['tool_word'] = [w for w in few if w and "'" not in w and
+                       '"' not in w][:24 if ck.quick else 120]
     return by
 
 
